@@ -718,6 +718,25 @@ func c03Exec(in c03Input) {
 			rootObj = &c03USchema{}
 		}
 		root := ggql.NewRoot(rootObj)
+		if r.Intn(5) == 0 {
+			// a server that starts answering before its schema has been loaded: every entry point on a root that holds nothing yet
+			c03SetBudget(len(in.Text))
+			_ = root.ResolveString(in.Text, in.Op, in.Vars)
+			c03SetBudget(len(in.Text))
+			_ = root.ResolveBytes([]byte(in.Text), "", nil)
+			if exe, perr := root.ParseExecutableString(in.Text); perr == nil && exe != nil {
+				_, _ = root.ResolveExecutable(exe, in.Op, in.Vars)
+			}
+			_ = root.ResolveString("{ __schema { types { name } queryType { name } } __typename }", "", nil)
+			_ = root.ResolveString("mutation { a }", "", nil)
+			_ = root.ResolveString("subscription { a }", "", nil)
+			_, _ = root.AddEvent("x", 1)
+			_ = root.Unsubscribe("x")
+			_ = root.SDL(true, true)
+			_ = root.GetType("Query")
+			_ = root.RegisterField("Query", "a", "A")
+			c03Budget, c03YieldBudget = 0, 0
+		}
 		if r.Intn(8) == 0 {
 			// an application that never parses a schema document: all its types come through the Go API (built here by
 			// another root that did parse them)
